@@ -713,6 +713,31 @@ func vRunRace(c *vCase) {
 			k.call("Stop", &s, &okay)
 			c.Cov("self_terminations_with_racing_requests", 1)
 		}
+		// once more, and this time the client says nothing for longer than the server's 2 s heartbeat period while the server still
+		// believes the source to be running; then a new source must start, deliver data and stop as usual
+		src := w.source
+		var s string
+		if k.must("Start", &src, &okay) {
+			time.Sleep(2600 * time.Millisecond)
+			k.call("Stop", &s, &okay)
+			if k.must("ConfigureTriangleSource", &TriangleSourceConfig{Nchan: 2, SampleRate: 100000, Min: 100, Max: 600}, &okay) {
+				tri := "TRIANGLESOURCE"
+				if k.must("Start", &tri, &okay) {
+					k.must("StoreRawDataBlock", 300, &s)
+					raw := s
+					for i := 0; i < 1600; i++ {
+						if _, err := os.Stat(raw); err == nil {
+							c.Cov("raw_blocks_completed", 1)
+							break
+						}
+						time.Sleep(5 * time.Millisecond)
+					}
+					k.must("Stop", &s, &okay)
+					os.Remove(raw)
+				}
+			}
+			c.Cov("silences_longer_than_a_heartbeat_after_a_self_termination", 1)
+		}
 	case "stalled-disk":
 		// one channel's LJH file is a FIFO nobody reads for a while: that file's write queue (1000 slots) fills up and
 		// records are offered to a full queue, while the other channel's file is written normally
